@@ -4,7 +4,7 @@ CFG = {
     "props_module": "RpmVerif.Props.C13",
     "required_theorems": ["RpmVerif.C13.rust_eq_c", "RpmVerif.C13.rustCmp_swap", "RpmVerif.C13.rustCmp_trans",
                           "RpmVerif.C13.evr_cmp_spec", "RpmVerif.C13.evr_eq_cmp_eq", "RpmVerif.C13.nevra_eq_cmp_eq",
-                          "RpmVerif.C13.vectors_ok"],
+                          "RpmVerif.C13.vectors_ok", "RpmVerif.C13.chars_vs_bytes"],
     "trivial_branches": ["identical"],
     "rule": "exhaustive ordered pairs of all strings up to length 3 over the alphabet {0,1,a,B,'.','~','^','é'} (quick) / "
             "{0,1,9,a,B,'.','-','_','~','^','é'} (thorough), plus seeded long strings biased to shared prefixes, and EVR / NEVRA / "
